@@ -192,6 +192,9 @@ def main(argv=None):
     chk.assumptions = ["Fq-level methods are alias-safe (word layer, C02/C03)"]
     # statelessness (no call leaves anything behind in a global or static) is a premise of every per-call obligation: C20's IR obligations
     chk.include("C20")
+    # the word and FpBase layers' aliasing obligations (alias=1..3 variants of add / subtract / double / negate / multiply, every back end) live in C02/C03
+    chk.include("C02")
+    chk.include("C03")
     chk.run()
     chk.finish()
 
